@@ -200,10 +200,12 @@ def run(ctx: Ctx) -> None:
             x = torch.zeros(n + 1, dtype=torch.float64)
             x[0] = 1.0
             taus = [rule(k, n) for k in range(n)]
-            for k in range(n):
-                unit = torch.zeros(n + 1, dtype=torch.float64)
-                unit[k + 1] = 1.0
-                x = U.residual_apply(lambda _z, u=unit: u, x, taus[k])
+            import contextlib
+            with (torch.no_grad() if case["layers"] % 2 == 0 else contextlib.nullcontext()):     # inference as well as training
+                for k in range(n):
+                    unit = torch.zeros(n + 1, dtype=torch.float64)
+                    unit[k + 1] = 1.0
+                    x = U.residual_apply(lambda _z, u=unit: u, x, taus[k])
             got = [float(v) ** 2 for v in x]
             # the same unrolling the clause oracle applies to the taus (squared weights of the normalised mix)
             t2 = [t * t for t in taus]
